@@ -5,6 +5,7 @@ CONSTANTS
   MetaKeys = {"d", "l"}
   Values = {"x", "y"}
   AtomicSave = TRUE
+  CommitOnError = FALSE
   DropStaleIndex = FALSE
 INVARIANTS HashLookupExact SavedRetrievable
 PROPERTIES HeightOnlyGrows
